@@ -1,5 +1,6 @@
 import CogentModel.Gen.C16Opt
 import CogentModel.Model.OptimiserLf
+import CogentModel.Model.OptGenClamp
 /-! # C16 — the TRANSLATED optimiser stack equals the hand model
 
 `Gen/C16Opt.lean` is rewritten on every run from the current source text of `maths/optimisers.py`,
@@ -412,13 +413,8 @@ theorem maximise_eq (env : Env X Y)
       have hpf : pyIsFinite env (PyF.val y) = false := hfy'
       exact ⟨g.warned, by simp [hfy', hpf, finalRes, auxOf]⟩
 
-/-- the start vector `Calculator.optimise` hands to `maximise`: `get_value_array()` after the two `allclose` clamps -/
-def clampX (env : Env X Y) : X :=
-  let x := env.valueArray
-  let x := if env.allclose (env.sel x (env.maskGt env.boundsLow x)) (env.sel env.boundsLow (env.maskGt env.boundsLow x))
-    then env.put x (env.maskGt env.boundsLow x) (env.sel env.boundsLow (env.maskGt env.boundsLow x)) else x
-  if env.allclose (env.sel x (env.maskLt env.boundsHigh x)) (env.sel env.boundsHigh (env.maskLt env.boundsHigh x))
-    then env.put x (env.maskLt env.boundsHigh x) (env.sel env.boundsHigh (env.maskLt env.boundsHigh x)) else x
+/- `clampX` (the start vector `Calculator.optimise` hands to `maximise`) is defined in Model/OptGenClamp.lean, so that the
+   driver can evaluate it without depending on the generated file -/
 
 /-- … as `maximise` then sees it (`atleast_1d` of a 0-d array) -/
 def startOf (env : Env X Y) : X := if env.multi (clampX env) then clampX env else env.atleast1d (clampX env)
